@@ -22,7 +22,7 @@ SINK = re.compile(
     r"check_compact|compact|reconcile\w*|evict\w*|cache_\w+|add_to_\w+|add_block\w*|update_\w+|init_\w+|replace\w*|discard|retain|clear|insert|extend|append|"
     r"extending|header_extending|force_rollback|set_\w+|reset_\w+|copy_from_slice|clone_from_slice|with_capacity|from_elem|reserve|advance|split_to|"
     r"block_accepted|tx_accepted|stem_tx_accepted|send\w*|broadcast\w*|ban_peer|resize|sync_all|remove_file|remove_dir_all|create|"
-    r"sort\w*|dedup\w*|reverse|drain|swap\w*|fetch_add|fetch_sub|store|randomize)$")
+    r"sort\w*|dedup\w*|reverse|drain|swap\w*|fetch_add|fetch_sub|store|randomize|read_exact|recv\w*)$")
 NOISE = re.compile(r"^(core::fmt|log::|alloc::fmt|core::ops::try_trait|core::ops::deref|core::clone|core::convert|core::borrow|alloc::string|alloc::str|core::hint|alloc::borrow)")
 WS = re.compile(r"^<?grin")
 
@@ -223,6 +223,23 @@ def summarize(F, key):
                 cuts += c["edges"]
             if cuts and reach(fn, [0], targets, cuts, dead) is None:
                 order.append([ak, bk])
+    # each: inside a loop, between two consecutive executions of the state-changing call B the state-changing call A is passed again
+    # (`set_stream_timeout` before every `read_exact`): hoisting A out of the loop changes what every later iteration runs under
+    each = []
+    sink_keys = sorted(k2 for k2, l2 in by_key.items() if any(c["sink"] for c in l2))
+    for bk in sink_keys:
+        for cb in by_key[bk]:
+            nxt = cb["t"]["t"]
+            if nxt is None or nxt < 0 or reach(fn, [nxt], {cb["bi"]}) is None:
+                continue  # not in a cycle
+            for ak in sink_keys:
+                if ak == bk or [ak, bk] in each:
+                    continue
+                cuts = []
+                for c in by_key[ak]:
+                    cuts += c["edges"] if c["kind"] not in ("unchecked", "diverges") else [(c["bi"], c["t"]["t"])]
+                if cuts and reach(fn, [nxt], {cb["bi"]}, cuts) is None:
+                    each.append([ak, bk])
     # args of workspace sink calls, of std sink calls on shared state, and of workspace calls with two parameters of the same type (swap-prone)
     args = {}
     for bk, blst in sorted(by_key.items()):
@@ -338,7 +355,7 @@ def summarize(F, key):
         universe |= set(_stab(F, ex.local(0, 0, ())))
     gates = sorted({c["key"] for c in calls if c["kind"] in GATE or c["sink"]})
     return {"must": must, "order": order, "args": args, "guards": guards, "silent": silent, "assigns": assigns, "ret": ret,
-            "consts": const_census(fn), "universe": sorted(universe), "gates": gates, "rejects": rejects}
+            "consts": const_census(fn), "universe": sorted(universe), "gates": gates, "rejects": rejects, "each": each}
 
 
 ALLOC_HINT = re.compile(r"::(with_capacity|reserve|reserve_exact)$")
@@ -512,8 +529,11 @@ def scope(F, prop_record, depth=2, want_named=False):
         nxt = set()
         for k in frontier:
             for bi, t in F.calls(k):
+                direct = set(callee_names(t)) | set(t.get("ncallables", ()))
                 for n in callees_poly(F, t):
                     if n in in_files and n not in out:
+                        if n not in direct and n in t.get("bridged", ()) and F.fns[n]["span"].get("exp"):
+                            continue  # derive-/macro-generated trait impls run by upstream generic code (Clone, Debug, PartialEq, serde): not mechanism
                         nxt.add(n)
         out |= nxt
         frontier = nxt
@@ -561,7 +581,7 @@ def generate(F, prop_record, named_elsewhere=()):
         if k not in named and k in named_elsewhere:
             continue
         s = summarize(F, k)
-        if s["must"] or s["order"] or s["args"] or s["guards"] or s["assigns"] or s["ret"] or s["consts"] or s["rejects"]:
+        if s["must"] or s["order"] or s["args"] or s["guards"] or s["assigns"] or s["ret"] or s["consts"] or s["rejects"] or s["each"]:
             s["named"] = k in named
             s["narrow_checked"] = True
             s["closure"] = F.fns[k]["kind"] == "Closure"
@@ -778,6 +798,30 @@ def check(ctx, prop):
             ctx.record("baseline-order", "R9", k, "%s: %s succeeds before %s" % (short(k, 2), a, bk), "violation", [where],
                        ["on the confirmed tree every path to %s passed a successful %s; now a path reaches it without" % (bk, a)] + (path_locs(fn, p2) if p2 else []),
                        key_detail="order:%s>%s" % (a, bk))
+        # ---- each: A is passed again between consecutive executions of B
+        for a, bk in b.get("each", []):
+            n["each"] += 1
+            if [a, bk] in cur.get("each", []):
+                continue
+            ac, bc = _short_callee(a), _short_callee(bk)
+            if (_is_ws_short(F, ac) and ac not in cur_names) or (_is_ws_short(F, bc) and bc not in cur_names):
+                continue
+            tb = [(bi, t) for bi, t in F.calls(k) if _short_callee(call_key(fn, t, Exprs(fn))) == bc]
+            rx = pat("re:(?:^|::|<| )%s$" % re.escape(ac))
+            cuts = []
+            for bi, _how in ctx._call_blocks(k, rx, 2):
+                e_, kind_ = success_edges(fn, bi)
+                cuts += e_ if kind_ not in ("unchecked", "diverges") else [(bi, fn["blocks"][bi]["term"]["t"])]
+            for bi, t in tb:
+                if t["t"] is None or t["t"] < 0 or reach(fn, [t["t"]], {bi}) is None:
+                    continue  # B no longer sits in a loop of this function (vacuous)
+                p2 = reach(fn, [t["t"]], {bi}, cuts)
+                if p2 is not None:
+                    bad += 1
+                    ctx.record("baseline-each", "R9", k, "%s: %s is passed again before every further %s" % (short(k, 2), a, bk), "violation", [where],
+                               ["on the confirmed tree every loop iteration passed %s before %s; now %s can run again without it (the call was hoisted out of the loop or made conditional)" % (a, bk, bk)] + path_locs(fn, p2),
+                               key_detail="each:%s>%s" % (a, bk))
+                    break
         # ---- args: per callee, the origins of each argument (matched against every call of that callee in the function and its closures)
         cur_args = collections.defaultdict(list)
         for ck, alts in cur["args"].items():
